@@ -455,6 +455,21 @@ func NewGraph(metaData *MetaData, build *BuildDirective, varPool *VarPool) (*Gra
 		}
 		deferred = 0
 
+		// kessoku.Bind[I](kessoku.Struct[T]()): the interface is supplied by whatever supplies the struct
+		source := fnProviderMap[structTypeKey]
+		for _, typeGroup := range structProvider.Provides {
+			for _, t := range typeGroup {
+				key := typeKey(t)
+				if key == structTypeKey {
+					continue
+				}
+				if existing, ok := fnProviderMap[key]; ok && existing != source {
+					return nil, fmt.Errorf("multiple providers provide %s", key)
+				}
+				fnProviderMap[key] = source
+			}
+		}
+
 		// Create synthetic field accessor providers for each exported field
 		for _, field := range structProvider.StructFields {
 			fieldProvider := &ProviderSpec{
